@@ -297,6 +297,8 @@ class PrecipitateModel (PrecipitateBase):
 
         x = [self.PBM[p].PSD for p in range(len(self.phases))]
         Y = self._calcNucleationRate(self.pData.time[self.pData.n], x, Y)
+        #Zero growth rate as the 'previous value' in case the first growth rate calculation fails
+        self.growth = [np.zeros(self.PBM[p].bins + 1) for p in range(len(self.phases))]
         self.growth, Y = self._growthRate(Y)
         self.pData.setSlice(Y, self.pData.n)
     
